@@ -8,8 +8,8 @@ SPEC = {
     "sub": "c12",
     "lean_modules": ["TrustVerif.Props.C12"],
     "tiers": {
-        "quick": {"cases": 2000, "extra": {"maxbytes": 4096, "maxmodeltokens": 3000, "maxparseevents": 4000}},
-        "thorough": {"cases": 30000, "extra": {"maxbytes": 4096, "maxmodeltokens": 7000, "maxparseevents": 20000}},
+        "quick": {"cases": 1800, "extra": {"maxbytes": 4096, "maxmodeltokens": 3000, "maxparseevents": 4000}},
+        "thorough": {"cases": 30000, "extra": {"maxbytes": 4096, "maxmodeltokens": 7000, "maxparseevents": 20000, "sweepfull": 1}},
     },
     "timeout": 7200,
     # The compared observables are the post-pass token list and the tree built from the real event
@@ -19,8 +19,15 @@ SPEC = {
     "rule": "case = one text (<= 4 KiB; deep-nesting cases are exempt from the size cap): random Unicode, token soups "
             "drawn from the real #[token] table of lexer/tokens.rs, every .st file under /repo (123 files) verbatim, "
             "mutated (14 token/character-level mutations, 1-4 per case), truncated or spliced, generated error-free "
-            "programs, and nesting cases (expressions to depth 1500, statements/types/namespaces to depth 200, in a "
-            "child process). Per case the real lexer, parser hook and parser run; 4 operations are compared with the "
+            "programs, structured injection (sweep: 24 valid snippets covering every 'items until END_x' loop of the "
+            "grammar; in EVERY run each token boundary of each snippet receives the core closers/separators "
+            ") ] ; : , := ( [ THEN DO OF TO BY ELSE ELSIF UNTIL END_IF END_CASE END_VAR END_PROGRAM, end of input, a "
+            "rotating slice of the remaining punctuation/END_*/structural keywords and trivia pieces; thorough: the whole "
+            "focused list spaced, glued and followed by EOF; plus random (snippet|corpus file, boundary) pairs with the "
+            "whole real token table), and nesting cases (expressions to depth 1500, statements/types/namespaces to depth 200, in a "
+            "child process). Sweep and nesting cases run in a child process under an address-space cap with a "
+            "per-text progress deadline; all other cases under a watchdog with a memory-growth check, so a hang or "
+            "run-away allocation is reported with the text that causes it. Per case the real lexer, parser hook and parser run; 4 operations are compared with the "
             "model (lex = post-pass on the raw logos stream; sink = tree from the real tokens+events; errs; parse = the "
             "model parser run on operations reconstructed from the real events/errors must reproduce them). Cases with "
             "more than maxmodeltokens tokens are oracle-only. non-trivial = the lexer post-pass fired, or the event stream contains a forward "
